@@ -8,6 +8,7 @@ package rules
 import (
 	"fmt"
 	"go/token"
+	"go/types"
 	"sort"
 	"strings"
 
@@ -354,7 +355,7 @@ func (e *stickyEngine) run(fn *ssa.Function, k int, strongMixed bool) *stResult 
 							call = x
 						}
 						if c, ok := call.(*ssa.Call); ok {
-							if cal := c.Call.StaticCallee(); cal != nil && e.eff[cal] != nil {
+							if cal := model.Unthunk(c.Call.StaticCallee()); cal != nil && e.eff[cal] != nil {
 								for ai, a := range c.Call.Args {
 									if ce := e.eff[cal][ai]; ce != nil && ce.retSaved == idx && m.IsDecPtr(a.Type()) && m.RefOf(a).MayBeParam(k) {
 										if sv, ok := savedAt[c]; ok {
@@ -491,6 +492,11 @@ func (e *stickyEngine) run(fn *ssa.Function, k int, strongMixed bool) *stResult 
 						rr := m.RefOf(ins.Results[0])
 						if rr.Params == 0 && !rr.Fresh && !rr.Unknown && !rr.Global {
 							success = false // returns the nil *Decimal: an error exit
+						}
+					}
+					for _, rv := range ins.Results {
+						if types.Identical(rv.Type(), types.Universe.Lookup("error").Type()) && errKnownNonNil(m, rv, ins.Block()) {
+							success = false // returns an error that was found non-nil on the way
 						}
 					}
 					if success {
